@@ -167,10 +167,11 @@ let diagnose (rho : renaming) (x : xprogram) (x' : xprogram) : string =
             | Some fd' ->
               let rec find pc a b = match a, b with
                 | [], [] -> "captures or type id"
-                | ia :: ta, ib :: tb -> if instr_ok rho x ia ib then find (pc + 1) ta tb else Printf.sprintf "pc %d" pc
+                | ia :: ta, ib :: tb -> if instr_img rho ia ib then find (pc + 1) ta tb else Printf.sprintf "pc %d" pc
                 | _, _ -> "length" in
               Some (Printf.sprintf "function %d -> %d differs at %s" i j (find 0 fd.xf_code fd'.xf_code)))
          | None -> None));
+    (fun () -> rep "a tested type has no dumped type_compatibility row in function" (first rho.r_f (fun f _ -> rows_dumped x f)));
     (fun () -> rep "constant" (first rho.r_c (chk_const x x')));
     (fun () -> rep "tuple" (first rho.r_t (chk_tuple rho x x')));
     (fun () -> rep "type" (first rho.r_y (chk_type rho x x')));
@@ -256,6 +257,49 @@ let emit_check (fields : Sexp.t list) : string =
         | _ -> "(emit skip model-run-did-not-complete)")
      | _ -> "(emit skip not-a-pure-import)")
 
+(* model of tree_shake (vm/RemapShake.v) vs the real function: exact equality of every table *)
+let shake_check (ac : Sexp.t list) (ts : Sexp.t list) : string =
+  try
+    let (x, _) = program_of ac [] in
+    let (y, _) = program_of ts [] in
+    if not (wf_program x) then "(shake skip ill-formed-input)" else
+    match tree_shake x with
+    | None -> "(shake differ \"the model panics (a marked function names an unmarked id)\")"
+    | Some m ->
+      let diffs = List.filter_map (fun (n, b) -> if b then None else Some n)
+          [ ("constants", m.x_consts = y.x_consts); ("functions", m.x_funcs = y.x_funcs); ("tuples", m.x_tuples = y.x_tuples);
+            ("types", m.x_types = y.x_types); ("builtins", m.x_builtins = y.x_builtins); ("resources", m.x_resources = y.x_resources);
+            ("entry", m.x_entry = y.x_entry) ] in
+      if diffs = [] then
+        (* and the renaming the model computes is accepted structurally (theorem tree_shake_struct, re-checked) *)
+        (if struct_ok (shake_rho x) x m then Printf.sprintf "(shake same %d %d)" (List.length x.x_funcs) (List.length m.x_funcs)
+         else "(shake differ \"struct_ok rejects the model's own renaming\")")
+      else Printf.sprintf "(shake differ \"%s\")" (String.concat " " diffs)
+  with Failure m -> Printf.sprintf "(shake driver-error \"%s\")" (String.escaped m)
+
+(* model of merge_bytecode (vm/RemapMerge.v) vs the real function: the environment's whole program
+   after the merge and the remapped entry must be equal; the theorem's premises are evaluated *)
+let merge_check (before : Sexp.t list) (src : Sexp.t list) (mg : Sexp.t list) : string =
+  try
+    let (e, _) = program_of before [] in
+    let (b, _) = program_of src [] in
+    let (y, _) = program_of mg [] in
+    if not (wf_program b) then "(merge skip ill-formed-input)" else
+    match merge e b with
+    | None -> "(merge differ \"the model panics or runs out of fuel\")"
+    | Some (m, rho) ->
+      let diffs = List.filter_map (fun (n, ok) -> if ok then None else Some n)
+          [ ("constants", m.x_consts = y.x_consts); ("functions", m.x_funcs = y.x_funcs); ("tuples", m.x_tuples = y.x_tuples);
+            ("types", m.x_types = y.x_types); ("builtins", m.x_builtins = y.x_builtins); ("resources", m.x_resources = y.x_resources);
+            ("entry", m.x_entry = y.x_entry) ] in
+      if diffs <> [] then Printf.sprintf "(merge differ \"%s\")" (String.concat " " diffs)
+      else if not (merge_premises rho b m) then
+        Printf.sprintf "(merge same premises-fail \"%s\")"
+          (if not (backward_refs b) then "forward function reference" else if not (no_process b) then "Process instruction" else "NIL/OK, builtin signature or dedup")
+      else if struct_ok rho b m then Printf.sprintf "(merge same %d %d)" (List.length e.x_funcs) (List.length m.x_funcs)
+      else "(merge differ \"premises hold but struct_ok rejects the model's renaming\")"
+  with Failure m -> Printf.sprintf "(merge driver-error \"%s\")" (String.escaped m)
+
 let () =
   let emit_mode = Array.length Sys.argv > 1 && Sys.argv.(1) = "--emit" in
   try
@@ -272,7 +316,10 @@ let () =
            let ac = prog_named "ac" items and ts = prog_named "ts" items and mg = prog_named "mg" items in
            let r1 = validate "ts" ac ts (rho_named "ts" items) in
            let r2 = validate "mg" (if merged = "ac" then ac else ts) mg (rho_named "mg" items) in
-           print_endline (Printf.sprintf "(validated %s %s)" r1 r2)
+           let r3 = shake_check ac ts in
+           let r4 = (try merge_check (prog_named "before" items) (if merged = "ac" then ac else ts) mg
+                     with Failure _ -> "(merge skip no-before-dump)") in
+           print_endline (Printf.sprintf "(validated %s %s %s %s)" r1 r2 r3 r4)
          with Failure m -> print_endline (Printf.sprintf "(validated (driver-error \"%s\"))" (String.escaped m)))
       | _ -> print_endline "(skip)"
     done
